@@ -989,7 +989,7 @@ def distribution(obs):
 # ----------------------------------------------------------------------------- shrinking
 def shrink(case, ob, why, build_ok, rounds=8):
     """greedy: drop commands / operations / path steps / document members while model and implementation still disagree"""
-    if not build_ok:
+    if not build_ok or os.environ.get("VERIF_NO_SHRINK"):
         return case
     import check
     cur = case
